@@ -43,6 +43,7 @@ fn main() {
         "C19" => verif_harness::props::c19::run(&cfg),
         "C20" => verif_harness::props::c20::run(&cfg),
         "C18" => verif_harness::props::c18::run(&cfg),
+        "C13" => verif_harness::props::c13::run(&cfg),
         "STRUCT" => verif_harness::props::structs::run_model(&cfg),
         _ => {
             eprintln!("unknown property {prop}");
